@@ -77,7 +77,7 @@ SCAL = {"a": 0.3125, "b": -2.5, "c": 4.0, "k": -0.5, "g": -2.5}
 
 def bounds(tier):
     return {"tier": tier, "families": ["P1 properties", "P2 unary methods / operators", "P3 binary methods / operators", "P4 constructors", "P5 chains of two calls", "P6 Awkward loops", "P7 compile histories (both flavors and sibling systems in one process)"],
-            "type_signatures": "P1, P2, P6: 20 systems x 2 flavors; P3: diagonal+cross system pairs x flavor pairs (all pairs in thorough); P4: 40 spellings; P5: 4 systems per dimension (all in thorough)",
+            "type_signatures": "P1, P2, P6: 20 systems x 2 flavors; P3: diagonal+cross system pairs x flavor pairs (all pairs in thorough); P4: every mixture of geometric and momentum spellings (222); P5: 4 systems per dimension (all in thorough)",
             "tolerance": "1e-12 relative"}
 
 
@@ -325,6 +325,12 @@ def run_shard(shard, tier):
                 alt = {"E": ["e", "energy"], "mass": ["M", "m"]}
                 last = spell[-1]
                 spellings += [spell[:-1] + (x,) for x in alt.get(last, [])]
+            if fl == "momentum":
+                # every mixture of geometric and momentum spellings, coordinate by coordinate (one momentum name makes a momentum vector)
+                ALT = {"x": ["px"], "y": ["py"], "rho": ["pt"], "z": ["pz"], "t": ["E", "e", "energy"], "tau": ["mass", "M", "m"]}
+                for mix in itertools.product(*[[n] + ALT.get(n, []) for n in names]):
+                    if mix != tuple(names) and mix not in spellings:
+                        spellings.append(mix)
             for sp in spellings:
                 members = ["vector.obj(" + ", ".join(f"{n}=c{i}" for i, n in enumerate(sp)) + ")"]
                 cls = {2: "Object2D", 3: "Object3D", 4: "Object4D"}[dim]
